@@ -85,6 +85,7 @@ def main(run):
             n_ctor = (overrides or {}).get("n_inner", 1)
             incremental = cls_name.startswith("Incremental")
             explained = 0
+            manual_first = incremental and st is not None and rnd.random() < 0.4    # user-managed storage: first call flagged off
             for t in range(7):
                 x = {f: 1000 * (t + 1) + j for j, f in enumerate(names)}
                 y = float(rnd.randrange(-5, 6))
@@ -92,7 +93,7 @@ def main(run):
                 kw = {}
                 if t > 0 and rnd.random() < 0.3:
                     kw["n_inner_samples"] = rnd.choice([1, 2, 4])
-                if incremental and t > 0 and rnd.random() < 0.3:
+                if incremental and ((t > 0 and rnd.random() < 0.3) or (t == 0 and manual_first)):
                     kw["update_storage"] = False
                 if not incremental:
                     kw["verbose"] = False
@@ -153,6 +154,8 @@ def main(run):
                                 bad.append(("storage-update-order", f"storage update events at {ups} of {len(log)} log entries"))
                         elif ups:
                             bad.append(("storage-update-order", "storage updated although update_storage=False"))
+                if t == 0 and manual_first and not bad:
+                    e.update_storage(x, y)          # the user seeds the storage through the public method instead
                 for mech, msg in bad:
                     run.violation(f"{mech}:{cls_name}" if mech in ("result-keys",) else mech, f"{tag} call {t}: {msg}", creplay)
                 if bad:
